@@ -3,7 +3,7 @@
 (* (part of C04: pushed notifications go only to the notification subscriber).   *)
 (* Events come from the verif-hooks sink, so their order is the order of the     *)
 (* critical sections on the slot's mutex:                                        *)
-(*   ns_sub(ok, tok)   subscribe_notifies, logged under the mutex                *)
+(*   ns_sub_begin / ns_sub(ok, tok)   subscribe_notifies: mutex taken / decision *)
 (*   ns_unsub_begin / ns_unsub_end   around the critical section that empties    *)
 (*                     the slot (unsubscribe_notifies, or the connection ending) *)
 (*   ns_snap_begin(n) / ns_snap_end(n, has)  around the critical section in      *)
@@ -37,9 +37,18 @@ Reset == /\ Has /\ E.ev = "reset" /\ \A t \in Threads : pend[t].st = "idle"
          /\ slot' = 0 /\ alive' = {} /\ queue' = [t \in Toks |-> <<>>] /\ pushed' = 0 /\ readIdx' = 0 /\ rd' = <<>>
          /\ everInstalled' = {} /\ removed' = {} /\ usec' = [t \in UThreads |-> ""] /\ ssec' = "" /\ UNCHANGED pend /\ Step
 Push == Has /\ E.ev = "push" /\ E.n = pushed + 1 /\ N!Push /\ UNCHANGED <<pend, usec, ssec>> /\ Step
-Sub == /\ Has /\ E.ev = "ns_sub"
-       /\ IF E.ok THEN N!SubscribeOk(E.tok) ELSE N!SubscribeRefused
-       /\ UNCHANGED <<pend, usec, ssec>> /\ Step
+\* subscribe_notifies: ns_sub_begin is logged right after the slot's mutex is taken, ns_sub(ok) after the decision.  The
+\* decision reads the installed sender's is_closed(), and a receiver is dropped WITHOUT that mutex: a refusal is right if
+\* the installed subscriber was alive at any moment of the critical section - when it began, or (the drop's silent step
+\* being placed later) when it ended.  Under the mutex nothing else can install or empty the slot in between.
+SubBegin == /\ Has /\ E.ev = "ns_sub_begin" /\ usec[E.t] = ""
+            /\ usec' = [usec EXCEPT ![E.t] = IF slot # 0 /\ slot \in alive THEN "sub_live" ELSE "sub_dead"]
+            /\ UNCHANGED <<nvars, pend, ssec>> /\ Step
+Sub == /\ Has /\ E.ev = "ns_sub" /\ usec[E.t] \in {"sub_live", "sub_dead"}
+       /\ IF E.ok THEN N!SubscribeOk(E.tok)
+          ELSE (usec[E.t] = "sub_live" \/ (slot # 0 /\ slot \in alive)) /\ UNCHANGED nvars
+       /\ usec' = [usec EXCEPT ![E.t] = ""]
+       /\ UNCHANGED <<pend, ssec>> /\ Step
 \* sec[who] : "" | "begin" | "done"  -- bracketed critical sections of the reader (snapshot) and of up to 4 unsubscribers
 UnsubBegin == /\ Has /\ E.ev = "ns_unsub_begin" /\ usec[E.t] = "" /\ usec' = [usec EXCEPT ![E.t] = "begin"]
               /\ UNCHANGED <<nvars, pend, ssec>> /\ Step
@@ -69,7 +78,7 @@ Respond == /\ Has /\ E.ev = "res" /\ pend[E.t].st = "lin" /\ pend[E.t].ret = E.r
            /\ pend' = [pend EXCEPT ![E.t] = Idle] /\ UNCHANGED <<nvars, usec, ssec>> /\ Step
 Quiesce == /\ Has /\ E.ev = "quiesce" /\ readIdx = pushed /\ rd = <<>> /\ ssec = "" /\ E.pushed = pushed
            /\ UNCHANGED <<nvars, pend, usec, ssec>> /\ Step
-Next == Reset \/ Push \/ Sub \/ UnsubBegin \/ UnsubEnd \/ SnapBegin \/ SnapDo \/ SnapEnd \/ SilentSend \/ SendFail \/ Invoke \/ Respond \/ Quiesce
+Next == Reset \/ Push \/ SubBegin \/ Sub \/ UnsubBegin \/ UnsubEnd \/ SnapBegin \/ SnapDo \/ SnapEnd \/ SilentSend \/ SendFail \/ Invoke \/ Respond \/ Quiesce
         \/ (\E t \in Threads : Lin(t)) \/ (\E t \in UThreads : UnsubDo(t))
 Spec == Init /\ [][Next]_<<nvars, pend, usec, ssec, l>>
 LiveSubscriberKept == N!LiveSubscriberKept
